@@ -17,9 +17,9 @@ EXTENDS Compat, IOUtils
 (* The structural part identifies the failing inputs; the leading FALSE is the "listed" switch.          *)
 (* the application has no undefined variable symbol at all and every reported interface it does not use is a variable *)
 FnsOf(ev, S) == S \cap {ev.fns[k] : k \in 1..Len(ev.fns)}          \* ev.fns = the function interfaces (names are opaque strings)
-KF_C29_unused_vars(ev, extra) == FALSE /\ ev.undefVars = <<>> /\ extra # {} /\ FnsOf(ev, extra) = {}
+KF_C29_unused_vars(ev, extra) == ev.undefVars = <<>> /\ extra # {} /\ FnsOf(ev, extra) = {}
 (* the application has an undefined variable symbol, so the variables it holds through copy relocations are dropped: their change / removal is missed *)
-KF_C29_copied_var_missed(ev, missed) == FALSE /\ ev.undefVars # <<>> /\ missed # {}
+KF_C29_copied_var_missed(ev, missed) == ev.undefVars # <<>> /\ missed # {}
                                         /\ missed \subseteq {ev.copied[k] : k \in 1..Len(ev.copied)}
 (* weak mode: the mismatch is printed, only variables are concerned, the status is 0 *)
 KF_C29_weak_var_status(ev, mism) == FALSE /\ ev.mode = "weak" /\ ev.exit = 0 /\ ev.outlen > 0 /\ FnsOf(ev, mism) = {}
